@@ -48,6 +48,123 @@ EXPLANATION = (
     "error. Theorems: see Gql/Props/C13.lean."
 )
 
+def make_case(seed_text):
+    """C13's own case mix: boundary variables at every depth of argument literals (65%), response
+    keys merged across fragments in exclusive / overlapping contexts (20%), C02's stream (15%)."""
+    import random
+
+    rng = random.Random("mix:" + seed_text)
+    r = rng.random()
+    if r < 0.6:
+        return c02.make_case(seed_text, profile="c13")
+    if r < 0.85:
+        return make_two_context_case(seed_text)
+    return c02.make_case(seed_text)
+
+
+def make_two_context_case(seed_text):
+    import random
+
+    rng = random.Random(seed_text)
+    info = G.two_context_info()
+    sdl = G.schema_sdl(info)
+    docs = [{"text": G.gen_two_context_document(rng), "ops": [{"name": None, "kind": "query", "vars": []}], "mutations": []}
+            for _ in range(3)]
+    reqs = []
+    for _ in range(5):
+        mode = "conforming" if rng.random() < 0.8 else "hostile"
+        data = G.gen_data(rng, info, G.T("Query", True), mode, 0, 0.08, max_depth=6)
+        reqs.append({"doc": rng.randrange(3), "op": None, "vars": {}, "data": data, "mode": mode})
+    return {"sdl": sdl, "docs": docs, "requests": reqs, "info": info, "seed": seed_text}
+
+
+def probe_accepted(case, schema, document, di):
+    """Look for the failing input that explains an acceptance the rules reject: execute the
+    document (and its variant in which literal `@skip(if: true)` / `@include(if: false)` no longer
+    hide selections — still accepted by validate()) over conforming data, with variables omitted,
+    generated, all null, and Boolean variables chosen so that selections are included.
+    Returns [(message, stored case)] for request-attributable errors."""
+    import random
+
+    from graphql import parse, validate
+    from graphql.execution.values import get_variable_values
+    from graphql.language import OperationDefinitionNode
+
+    info = case.get("info")
+    rng = random.Random("probe:" + str(case.get("seed")) + str(di))
+    text = case["docs"][di]["text"]
+    candidates = [(text, document)]
+    neutral = text.replace("@skip(if: true)", "@skip(if: false)").replace("@include(if: false)", "@include(if: true)")
+    if neutral != text:
+        try:
+            d2 = parse(neutral)
+            if validate(schema, d2) == []:
+                candidates.append((neutral, d2))
+        except Exception:  # noqa: BLE001
+            pass
+    skip_vars = set(re.findall(r"@skip\(if: \$(\w+)\)", text))
+    incl_vars = set(re.findall(r"@include\(if: \$(\w+)\)", text))
+    for cand_text, cand_doc in reversed(candidates):
+        ops = [d for d in cand_doc.definitions if isinstance(d, OperationDefinitionNode)]
+        for op, opinfo in zip(ops, case["docs"][di]["ops"]):
+            attempts = []
+            if info is None:
+                # a stored case: its own requests on this document
+                attempts = [(r["vars"], r["data"]) for r in case["requests"] if r["doc"] == di and r["mode"] == "conforming"]
+            else:
+                root_t = info["mutation"] if opinfo["kind"] == "mutation" else info["query"]
+                declared = {v["name"] for v in opinfo["vars"]}
+                nullable_vars = [v["name"] for v in opinfo["vars"] if not G.tt(v["type"])[2]]
+                plans = [("omit", None)] + [("null", n) for n in nullable_vars] + [("allnull", None)] + [("random", None)] * 6
+                for kind, which in plans:
+                    if kind == "omit":
+                        raw = {}
+                    else:
+                        # required variables always get a value; nullable ones a value, or null as planned
+                        raw = {v["name"]: G.gen_input_value(rng, info, (G.tt(v["type"])[0], G.tt(v["type"])[1], True)) for v in opinfo["vars"]}
+                        if kind == "random":
+                            raw = G.gen_variables(rng, info, opinfo, "c13")
+                        for n in nullable_vars:
+                            if kind == "allnull" or n == which:
+                                raw[n] = None
+                        for n in declared & (skip_vars | incl_vars):  # include what directives on variables would hide
+                            raw[n] = (n in incl_vars) if (n in skip_vars) != (n in incl_vars) else (rng.random() < 0.5)
+                    for _ in range(2):
+                        attempts.append((raw, G.gen_data(rng, info, G.T(root_t, True), "conforming", 0, 0.0, max_depth=6)))
+            for raw, data in attempts:
+                cv = get_variable_values(schema, op.variable_definitions or (), raw)
+                if isinstance(cv, list):
+                    continue
+                has_null = any(v is None for v in cv.coerced.values())
+                req = {"doc": 0, "op": opinfo["name"] if len(ops) > 1 else None, "vars": raw, "data": data, "mode": "conforming"}
+                d1, e1, l1, res, _ = c02.run_impl(schema, cand_doc, req)
+                if d1 is None:
+                    continue
+                for e in res.errors or []:
+                    # with a null variable in play the run-time exception of the specification may apply,
+                    # except at OneOf fields (nullable, no defaults: never a position allowed through a default)
+                    if has_null and error_kind(e.message or "") != "oneof-variable":
+                        continue
+                    if REQUEST_ATTRIBUTABLE.match(e.message or ""):
+                        stored_case = {"sdl": case["sdl"], "docs": [dict(case["docs"][di], text=cand_text)],
+                                       "requests": [req], "seed": case.get("seed"), "request_index": 0}
+                        return [(e.message, json.loads(json.dumps(stored_case, default=repr)))]
+    return []
+
+
+def error_kind(message):
+    """stable, coarse kind of a request-attributable error (for fingerprints)"""
+    if "OneOf" in message:
+        return "oneof-variable"
+    if message.startswith("Argument '") and "was not provided" in message:
+        return "required-argument-missing"
+    if message.startswith("Argument '"):
+        return "argument-invalid-value"
+    if message.startswith("Variable '"):
+        return "variable"
+    return "other"
+
+
 REQUEST_ATTRIBUTABLE = re.compile(r"^(Argument '|Variable '|Unknown argument|Unknown type|Cannot query field)")
 
 
@@ -56,7 +173,7 @@ def _work(args):
     fw.use_repo()
     rep = Report()
     driver = fw.Driver(drv) if drv else None
-    cases = list(stored_cases) + [c02.make_case(f"c13:{base_seed}:{s}") for s in seeds]
+    cases = list(stored_cases) + [make_case(f"c13:{base_seed}:{s}") for s in seeds]
     for i in range(0, len(cases), 40):
         check_cases(cases[i : i + 40], rep, driver)
     return rep
@@ -99,12 +216,28 @@ def check_cases(cases, rep, driver):
             model_valid.append(mv)
             iv = valid[di]
             rep.evaluations += 1
+            if "...F1" in case["docs"][di]["text"] and "on Holder" in case["docs"][di]["text"]:
+                bump("two_context_documents")
+                if iv:
+                    bump("two_context_accepted")
             if iv is None:
                 bump("validate_raises")
             elif iv and not mv:
-                rep.disagreements.append(Disagreement(
-                    "validate()==[] but ValidDoc rejects (required direction)",
-                    {"sdl": case["sdl"], "document": case["docs"][di]["text"]}, "accepted", out))
+                # An acceptance the model rejects: look for the failing input that explains it
+                # (DESIGN C13: replay it on conforming data); unexplained -> correspondence break.
+                found = probe_accepted(case, schema, documents[di], di)
+                if found:
+                    bump("required_direction_explained_by_failing_input")
+                    for msg, stored_case in found[:1]:
+                        rep.failures.append(Failure(
+                            "request-attributable-error/" + error_kind(msg),
+                            "validate() accepts a document the rules reject, and executing it over conforming data "
+                            "produces an error attributable to the request",
+                            stored_case, [msg], "rejected by validation, or no request-attributable error", "C13-1/2 (required direction)"))
+                else:
+                    rep.disagreements.append(Disagreement(
+                        "validate()==[] but ValidDoc rejects (required direction)",
+                        {"sdl": case["sdl"], "document": case["docs"][di]["text"]}, "accepted", out))
             elif iv and mv:
                 bump("accepted_by_both")
             elif not iv and mv:
@@ -152,15 +285,20 @@ def check_cases(cases, rep, driver):
         attributable = [e for e in errs if REQUEST_ATTRIBUTABLE.match(e.message or "")]
         if may_null == "1":
             bump("null_variable_in_use")
+        flagged = False
         if attributable:
             if may_null == "1":
                 bump("exempt_null_via_default")
             else:
+                flagged = True
                 rep.failures.append(Failure(
-                    "request-attributable-error", "a validated document with accepted variables produced an error that is attributable to the request, not to the data",
+                    "request-attributable-error/" + error_kind(attributable[0].message),
+                    "a validated document with accepted variables produced an error that is attributable to the request, not to the data",
                     inp, [e.message for e in attributable], "only data-attributable errors", "C13-2 blame"))
         if req["mode"] == "conforming":
-            if errs and not (may_null == "1" and len(attributable) == len(errs)):
+            if flagged:
+                pass  # already reported with its specific fingerprint
+            elif errs and not (may_null == "1" and len(attributable) == len(errs)):
                 rep.failures.append(Failure(
                     "errors-on-conforming-data", "a validated document executed over conforming data reports errors",
                     inp, [e.message for e in errs], "no errors", "C13-1 soundness"))
